@@ -98,6 +98,85 @@ def _dispatch(item):
     return (kind, _sym_task(payload) if kind == "sym" else _conc_task(payload))
 
 
+def _preimport():
+    """import the code under analysis once in the parent so that forked workers do not pay for it per task"""
+    try:
+        import logging
+        logging.disable(logging.CRITICAL)
+        import harness.model  # noqa: F401
+        import harness.values  # noqa: F401
+        import z3  # noqa: F401
+    except Exception:
+        pass
+
+
+def _child_main(conn, item):
+    try:
+        conn.send(_dispatch(item))
+    except BaseException as e:  # unpicklable result, broken pipe, ...
+        try:
+            conn.send(_lost(item, "worker could not return its result: " + repr(e)[:500]))
+        except BaseException:
+            pass
+    finally:
+        try:
+            conn.close()
+        finally:
+            os._exit(0)
+
+
+def _lost(item, why):
+    from sx import core
+    kind, payload = item
+    if kind == "sym":
+        return (kind, dict(task=payload, error=why, paths=[], stats=core.new_stats(), exhaustive=False, wall_s=0.0,
+                           functions=[], pending=0, task_wall_s=0.0))
+    return (kind, dict(job=payload, error=why, outcome="error", failures=[], observed={}, n_obligations=0, notes=[]))
+
+
+def _hard_limit(item):
+    kind, payload = item
+    return 3 * payload.get("max_seconds", 300) + 900 if kind == "sym" else 1800
+
+
+def run_parallel(items, nproc):
+    """one forked process per task; a worker that dies (solver crash, kill, out of memory) or exceeds the hard wall-clock
+    limit yields an *engine error* for its task instead of hanging the check"""
+    from multiprocessing.connection import wait
+    ctxmp = mp.get_context("fork")
+    pending = list(items)[::-1]
+    running = {}
+    while pending or running:
+        while pending and len(running) < nproc:
+            item = pending.pop()
+            pc, cc = ctxmp.Pipe(duplex=False)
+            p = ctxmp.Process(target=_child_main, args=(cc, item))
+            p.start()
+            cc.close()
+            running[pc] = (p, item, time.time())
+        for c in wait(list(running), timeout=5):
+            p, item, t0 = running.pop(c)
+            try:
+                out = c.recv()
+            except (EOFError, OSError):
+                p.join(5)
+                out = _lost(item, f"worker process died without a result (exit code {p.exitcode})")
+            c.close()
+            p.join(10)
+            if p.is_alive():
+                p.kill()
+            yield out
+        now = time.time()
+        for c, (p, item, t0) in list(running.items()):
+            if now - t0 > _hard_limit(item):
+                running.pop(c)
+                p.kill()
+                p.join(5)
+                c.close()
+                yield _lost(item, f"hard wall-clock limit of {_hard_limit(item)} s exceeded")
+
+
+
 # ----------------------------------------------------------------------------------------------------------------
 # parent side
 # ----------------------------------------------------------------------------------------------------------------
@@ -173,12 +252,12 @@ def run_property(modname, tier, seed, jobs=None):
         tasks.append(t)
     nproc = jobs or int(os.environ.get("VERIF_JOBS", "0")) or min(16, os.cpu_count() or 4)
     known = load_known()
-    ctxmp = mp.get_context("fork")
     sym_results = []
-    with ctxmp.Pool(nproc, maxtasksperchild=8) as pool:
+    _preimport()
+    if True:
         # longest first for better packing
         order = sorted(tasks, key=lambda t: -t.get("weight", 1))
-        for kind, res in pool.imap_unordered(_dispatch, [("sym", t) for t in order]):
+        for kind, res in run_parallel([("sym", t) for t in order], nproc):
             sym_results.append(res)
             if os.environ.get("VERIF_DEBUG"):
                 st = res["stats"]
@@ -205,7 +284,7 @@ def run_property(modname, tier, seed, jobs=None):
                     conc_jobs.append(dict(kind="fidelity", module=modname, harness=t["harness"], params=t["params"],
                                           inputs=pr.fidelity[0], expected=pr.fidelity[1], path_outcome=pr.outcome,
                                           expected_float=pr.fidelity[2] if len(pr.fidelity) > 2 else {}))
-        conc_results = [r for _, r in pool.imap_unordered(_dispatch, [("conc", j) for j in conc_jobs])]
+        conc_results = [r for _, r in run_parallel([("conc", j) for j in conc_jobs], nproc)]
 
     # ---- aggregate
     errors = [r["error"] for r in sym_results if r["error"]]
